@@ -620,7 +620,8 @@ from rules.agree import r20_3
 from rules.agree import r20_6
 from rules.prefilter import r10_1
 from rules.utilfn import r10_7
-RULES = [('R20.1', r20_1), ('R13.1', r13_1), ('R13.2', r13_2), ('R13.3', r13_3), ('R13.4', r13_4), ('R13.5', r13_5), ('R13.6', r13_6), ('R13.7', r13_7), ('R20.5', r20_5), ('R20.3', r20_3), ('R20.6', r20_6), ('R10.1', r10_1), ('R10.7', r10_7)]
+from rules.utilfn import r13_8
+RULES = [('R20.1', r20_1), ('R13.1', r13_1), ('R13.2', r13_2), ('R13.3', r13_3), ('R13.4', r13_4), ('R13.5', r13_5), ('R13.6', r13_6), ('R13.7', r13_7), ('R20.5', r20_5), ('R20.3', r20_3), ('R20.6', r20_6), ('R10.1', r10_1), ('R10.7', r10_7), ('R13.8', r13_8)]
 THOROUGH_CONFIGS = ['default', 'std', 'perf', 'nodefault', 'logging']
 
 CLAIM = """Static decision of the structural clauses R13.1-R13.7 on the MIR of /repo: every delegation from AhoCorasick into the
